@@ -3,6 +3,7 @@ import RQ.Lemmas.ParSched
 import RQ.Props.C07
 import RQ.Spec.Abs
 import RQ.Lemmas.ParLemmas
+import RQ.Lemmas.ParSave
 /-!
 # C06 — parallel push equals single-threaded push under every thread schedule
 
@@ -12,16 +13,23 @@ Three parts.
    interleaving of the workers, when all of them are done the shared index is the first failing patch and
    every worker has applied exactly a prefix of its queue containing all its file patches of patches up to
    and including that one (the later ones it may have run ahead with are rolled back, C04/C05).
+   A worker that meets an error publishes the index of that patch like a failure and keeps its state;
+   its error counts exactly when it happened in the patch the push stops at (`C06_error_index`).
 2. **Workers do not interfere** (`C07`, `C06_disjoint`, `C06_frame`, `C06_commute`): file patches queued
    for different workers have no file name in common; a file patch reads and changes only the entries of
    its own names in the tree; hence two file patches of different workers commute, and the tree obtained
    by any interleaving is the tree of the series order — which is what the single-threaded driver computes
    (`C05_apply_refines`).
-3. **Save phase** (not a theorem here): each worker writes only files of its own names (disjoint by part
-   2) and quilt backups under `.pc/<patch>/<own name>`; since the repairs recorded in known_findings.txt
-   emptied directories and reject files are handled by the main thread after all workers are done.  That
-   these writes are independent of the interleaving rests on the kernel semantics of operations on
-   distinct paths and is exercised by the forced-schedule runs only.
+3. **Save phase, every schedule** (`C06_save_phase`): each worker writes only files of its own names
+   (disjoint by part 2) and quilt backups under `.pc/<patch>/<own name>`; since the repairs recorded in
+   known_findings.txt emptied directories and reject files are handled by the main thread after all
+   workers are done.  The workers' save code (`workerSaveC` in `RQ/Model/Cmd.lean`, proven equal to the
+   model functions `saveAll` / `rollbackAndSaveBackups`) runs in the operation-level scheduling model of
+   `RQ/Lemmas/FSInterleave.lean`: if no file key of a worker is a prefix of a key of another one, then
+   under every interleaving every worker issues the operations of its solo run, and the resulting tree is
+   that of the sequential composition of the per-worker model save functions (up to inode numbers).
+   What remains *modelled, not verified*: the kernel semantics of the single operations (`RQ/Model/FS.lean`)
+   and their atomicity; that is exercised by the forced-schedule runs.
 The tie to the code is the scheduler hook: the real parallel driver is run under forced random schedules
 (baton at every point where a worker touches the shared index or the file system) and must produce the
 tree, `.pc`, rejects and exit status of the single-threaded specification.
@@ -47,18 +55,134 @@ none fails), and every worker `w` has processed a prefix of its queue — its st
 theorem C06_apply_phase (fs : FS) (cfg : Cfg) (queues : Nat → List QEntry) (N F : Nat)
     (hsorted : ∀ w, Sorted (toEntries (queues w)))
     (hF : ∀ w n e, (toEntries (queues w))[n]? = some e →
-      fails (apSched fs cfg queues) (w, .ok {}) (toEntries (queues w)) n = true → F ≤ e.idx)
+      fails (apSched fs cfg queues) (w, { st := {} }) (toEntries (queues w)) n = true → F ≤ e.idx)
     (hFwit : F = N ∨ ∃ w n e, (toEntries (queues w))[n]? = some e ∧
-      fails (apSched fs cfg queues) (w, .ok {}) (toEntries (queues w)) n = true ∧ e.idx = F)
+      fails (apSched fs cfg queues) (w, { st := {} }) (toEntries (queues w)) n = true ∧ e.idx = F)
     (hFN : F ≤ N) (sched : List Nat)
     (hdone : ∀ w, done (fun w => toEntries (queues w))
-      ((run (apSched fs cfg queues) (fun w => toEntries (queues w)) sched (initS (fun w => (w, .ok {})) N)).ws w) w) :
-    let s := run (apSched fs cfg queues) (fun w => toEntries (queues w)) sched (initS (fun w => (w, .ok {})) N)
+      ((run (apSched fs cfg queues) (fun w => toEntries (queues w)) sched (initS (fun w => (w, { st := {} })) N)).ws w) w) :
+    let s := run (apSched fs cfg queues) (fun w => toEntries (queues w)) sched (initS (fun w => (w, { st := {} })) N)
     s.earliest = F ∧
-    ∀ w, (s.ws w).st = pre (apSched fs cfg queues) (w, .ok {}) (toEntries (queues w)) (s.ws w).pos ∧
+    ∀ w, (s.ws w).st = pre (apSched fs cfg queues) (w, { st := {} }) (toEntries (queues w)) (s.ws w).pos ∧
          (∀ n e, (toEntries (queues w))[n]? = some e → e.idx ≤ F → n < (s.ws w).pos) :=
-  apply_phase_complete (apSched fs cfg queues) (fun w => toEntries (queues w)) (fun w => (w, .ok {})) N F
+  apply_phase_complete (apSched fs cfg queues) (fun w => toEntries (queues w)) (fun w => (w, { st := {} })) N F
     hsorted hF hFwit hFN sched hdone
+
+theorem apSched_id (fs : FS) (cfg : Cfg) (queues : Nat → List QEntry) (s : Nat × WSt) (e : Entry) :
+    (apSched fs cfg queues s e).1.1 = s.1 := by
+  unfold apSched
+  split <;> rfl
+
+/-- a terminated worker stays as it is -/
+theorem apSched_absorbing (fs : FS) (cfg : Cfg) (queues : Nat → List QEntry) (s : Nat × WSt) (e : Entry)
+    (p : Nat × Fail) (h : s.2.err = some p) : (apSched fs cfg queues s e).1.2 = s.2 := by
+  unfold apSched
+  split
+  · simp only [apW, h]
+  · rfl
+
+/-- a worker that terminates with an error at this entry publishes the entry's patch index -/
+theorem apSched_new_err (fs : FS) (cfg : Cfg) (queues : Nat → List QEntry) (s : Nat × WSt) (e : Entry)
+    (i : Nat) (x : Fail) (h0 : s.2.err = none) (h : (apSched fs cfg queues s e).1.2.err = some (i, x)) :
+    (apSched fs cfg queues s e).2 = true ∧ ∃ qe, (queues s.1)[e.tag]? = some qe ∧ qe.idx = i := by
+  cases hqe : (queues s.1)[e.tag]? with
+  | none =>
+    simp only [apSched, hqe, h0] at h
+    cases h
+  | some qe =>
+    simp only [apSched, hqe, apW, h0] at h ⊢
+    split at h
+    · rename_i hap
+      simp only [Option.some.injEq, Prod.mk.injEq] at h
+      simp only [hap]
+      exact ⟨trivial, qe, rfl, h.1⟩
+    · cases h
+
+/-- a worker whose state carries an error has published the index of the erroring patch: the error comes
+from an entry of its queue that counts as failing and has that patch index -/
+theorem pre_err_published (fs : FS) (cfg : Cfg) (queues : Nat → List QEntry) (w : Nat) :
+    ∀ (n i : Nat) (x : Fail),
+      (pre (apSched fs cfg queues) (w, { st := {} }) (toEntries (queues w)) n).2.err = some (i, x) →
+      ∃ m e, m < n ∧ (toEntries (queues w))[m]? = some e ∧
+        fails (apSched fs cfg queues) (w, { st := {} }) (toEntries (queues w)) m = true ∧ e.idx = i := by
+  have hid : ∀ n, (pre (apSched fs cfg queues) (w, { st := {} }) (toEntries (queues w)) n).1 = w := by
+    intro n
+    induction n with
+    | zero => rfl
+    | succ n ih =>
+      unfold pre
+      split
+      · exact ih
+      · rw [apSched_id]; exact ih
+  intro n
+  induction n with
+  | zero => intro i x h; cases h
+  | succ n ih =>
+    intro i x h
+    cases hq : (toEntries (queues w))[n]? with
+    | none =>
+      simp only [pre, hq] at h
+      obtain ⟨m, e, hm, r⟩ := ih i x h
+      exact ⟨m, e, by omega, r⟩
+    | some ent =>
+      rw [pre_succ _ _ _ _ _ hq] at h
+      cases herr : (pre (apSched fs cfg queues) (w, { st := {} }) (toEntries (queues w)) n).2.err with
+      | some p =>
+        rw [apSched_absorbing _ _ _ _ _ p herr] at h
+        obtain ⟨m, e, hm, r⟩ := ih i x h
+        exact ⟨m, e, by omega, r⟩
+      | none =>
+        obtain ⟨hfl, qe, hqe, hidx⟩ := apSched_new_err _ _ _ _ _ i x herr h
+        rw [hid n] at hqe
+        have hent := hq
+        unfold toEntries at hent
+        rw [getElem?_zipIdx_map_entries] at hent
+        cases hqn : (queues w)[n]? with
+        | none => rw [hqn] at hent; cases hent
+        | some qn =>
+          rw [hqn] at hent
+          simp only [Option.map_some, Option.some.injEq] at hent
+          subst hent
+          simp only at hqe
+          rw [hqn] at hqe
+          cases hqe
+          refine ⟨n, _, Nat.lt_succ_self n, hq, ?_, hidx⟩
+          simp only [fails, hq]
+          exact hfl
+
+/-- **C06 (which errors count)**: in the situation of `C06_apply_phase` — any schedule, all workers done,
+the shared index is the first failing patch `F` — a worker that terminated with an error in patch `i` has
+published `i`, so `F ≤ i`; hence its error counts (`errorCounts`, the rule of `parallel::apply_patches`)
+exactly when it happened in the patch the push stops at.  Which workers ran how far ahead does not
+matter. -/
+theorem C06_error_index (fs : FS) (cfg : Cfg) (queues : Nat → List QEntry) (N F : Nat)
+    (hsorted : ∀ w, Sorted (toEntries (queues w)))
+    (hF : ∀ w n e, (toEntries (queues w))[n]? = some e →
+      fails (apSched fs cfg queues) (w, { st := {} }) (toEntries (queues w)) n = true → F ≤ e.idx)
+    (hFwit : F = N ∨ ∃ w n e, (toEntries (queues w))[n]? = some e ∧
+      fails (apSched fs cfg queues) (w, { st := {} }) (toEntries (queues w)) n = true ∧ e.idx = F)
+    (hFN : F ≤ N) (sched : List Nat)
+    (hdone : ∀ w, done (fun w => toEntries (queues w))
+      ((run (apSched fs cfg queues) (fun w => toEntries (queues w)) sched (initS (fun w => (w, { st := {} })) N)).ws w) w) :
+    let s := run (apSched fs cfg queues) (fun w => toEntries (queues w)) sched (initS (fun w => (w, { st := {} })) N)
+    s.earliest = F ∧
+    ∀ w i x, (s.ws w).st.2.err = some (i, x) →
+      F ≤ i ∧ (errorCounts s.earliest (s.ws w).st.2 = true ↔ i = F) := by
+  intro s
+  obtain ⟨hE, hW⟩ := C06_apply_phase fs cfg queues N F hsorted hF hFwit hFN sched hdone
+  refine ⟨hE, ?_⟩
+  intro w i x herr
+  have hst := (hW w).1
+  have herr' := herr
+  rw [hst] at herr'
+  obtain ⟨m, e, _, hq, hfl, hidx⟩ := pre_err_published fs cfg queues w _ i x herr'
+  have hle : F ≤ i := by rw [← hidx]; exact hF w m e hq hfl
+  refine ⟨hle, ?_⟩
+  show errorCounts (run (apSched fs cfg queues) (fun w => toEntries (queues w)) sched
+      (initS (fun w => (w, { st := {} })) N)).earliest (s.ws w).st.2 = true ↔ i = F
+  rw [hE]
+  simp only [errorCounts, herr, decide_eq_true_eq]
+  omega
 
 /-- **C06 (a file patch touches only its own names)**: entries of other names are neither read nor changed -/
 theorem C06_frame (t : Abs.ATree) (fs : FS) (cfg : Cfg) (e : Series.Entry) (fp : PFilePatch) (r : Abs.FPOut)
@@ -95,7 +219,178 @@ theorem C06_queues_sorted (threads : Nat) (patches : List (Series.Entry × List 
     Sorted (toEntries (queueOf threads (allEntries patches 0) w)) :=
   sorted_of_pairwise _ ((allEntries_pairwise patches 0).filter _)
 
+/-! ## Save phase, every schedule -/
+
+/-- **C06 (save phase)**: parallel save under any interleaving = sequential composition of the per-worker
+model save functions.
+
+`n` worker threads; worker `i` runs the save code of `parallel::save_files_worker` — `ModifiedFiles::save`
+(`saveAll`) and then, if backups are wanted, `rollback_and_save_backup_files` (`rollbackAndSaveBackups`) —
+on its own cache `mems i` and its own list `applieds i` of applied file patches; the threads interleave
+at the granularity of single file-system operations, `sched` says whose turn it is
+(`saveProgs … n` are the workers' commands `workerSaveC`, proven equal to the model functions by
+`interp_workerSaveC`, in the scheduling model of `RQ/Lemmas/FSInterleave.lean`).  Assume
+* (a) every worker's save succeeds when it runs alone from `fs0` (with the model function `workerSave`), and
+* (b) no file key worker `i` may touch — the keys of the names in its cache, and, if backups are written,
+  `.pc/<patch>/<name>` for its applied file patches down to the backup count — is a prefix of (or equal
+  to) such a key of another worker `j` (`KeysDisjoint`, decidable).
+
+Then for EVERY schedule `sched`:
+1. every worker has so far issued an initial part of the operations of its solo run;
+2. if all workers are finished: running the workers one after another with the model functions
+   (`seqSave`: `saveAll`, `rollbackAndSaveBackups` of worker 0 from `fs0`, then those of worker 1 from the
+   result, …) succeeds, the file system of the parallel run equals the file system of that sequential run
+   up to inode numbers (`FSEquiv`), and every worker has issued exactly the operations of its solo run
+   (the trace of `workerSave` from `fs0`). -/
+theorem C06_save_phase (cfg : Cfg) (final rangeLen n : Nat) (mems : Nat → Mem) (applieds : Nat → List Status)
+    (fs0 : FS)
+    (hsolo : ∀ i, i < n → ∃ r, workerSave cfg final rangeLen ⟨fs0, [], none⟩ (mems i) (applieds i) = .ok r)
+    (hdisj : KeysDisjoint (saveKeys cfg final rangeLen mems applieds) n)
+    (sched : List Nat) :
+    (∀ i, i < n → ∃ wi dirs,
+        workerSave cfg final rangeLen ⟨fs0, [], none⟩ (mems i) (applieds i) = .ok (wi, dirs) ∧
+        (workerSaveC cfg final rangeLen (mems i) (applieds i)).opsAlong
+          ((ParSave.run (saveProgs cfg final rangeLen mems applieds n) sched (ParSave.init fs0)).hist i) <+: wi.trace) ∧
+    (ParSave.Done (saveProgs cfg final rangeLen mems applieds n)
+        (ParSave.run (saveProgs cfg final rangeLen mems applieds n) sched (ParSave.init fs0)) →
+      ∃ w, seqSave cfg final rangeLen mems applieds n ⟨fs0, [], none⟩ = .ok w ∧
+        ParSave.FSEquiv (ParSave.run (saveProgs cfg final rangeLen mems applieds n) sched (ParSave.init fs0)).fs w.fs ∧
+        ∀ i, i < n → ∃ wi dirs,
+          workerSave cfg final rangeLen ⟨fs0, [], none⟩ (mems i) (applieds i) = .ok (wi, dirs) ∧
+          (workerSaveC cfg final rangeLen (mems i) (applieds i)).opsAlong
+            ((ParSave.run (saveProgs cfg final rangeLen mems applieds n) sched (ParSave.init fs0)).hist i) = wi.trace) := by
+  have hok : ∀ i, i < n → ∃ a, (saveCmds cfg final rangeLen mems applieds i).result fs0 = .ok a := by
+    intro i hi
+    obtain ⟨r, hr⟩ := hsolo i hi
+    exact ⟨r.2, (workerSave_ok cfg final rangeLen hr).1⟩
+  obtain ⟨h1, h2⟩ := cmd_schedule_independence (saveCmds cfg final rangeLen mems applieds)
+    (saveKeys cfg final rangeLen mems applieds) n fs0
+    (fun i _ => workerSaveC_fp cfg final rangeLen (mems i) (applieds i)) hok hdisj sched
+  refine ⟨fun i hi => ?_, fun hd => ?_⟩
+  · obtain ⟨⟨wi, dirs⟩, hr⟩ := hsolo i hi
+    refine ⟨wi, dirs, hr, ?_⟩
+    rw [(workerSave_ok cfg final rangeLen hr).2.2]
+    exact h1 i hi
+  · obtain ⟨w, e, heq, _, hall⟩ := h2 hd
+    refine ⟨w, by rw [seqSave_eq]; exact e, heq, fun i hi => ?_⟩
+    obtain ⟨⟨wi, dirs⟩, hr⟩ := hsolo i hi
+    refine ⟨wi, dirs, hr, ?_⟩
+    rw [(workerSave_ok cfg final rangeLen hr).2.2]
+    exact (hall i hi).2
+
+/-! ### A concrete instance: two workers, one file patch each, backups on
+
+Worker 0 has changed `a/x`, worker 1 has created `b/y` (in a directory that does not exist yet); both write
+a backup below `.pc/p1`, so they share the directories `.pc` and `.pc/p1`.  The worker states are made by
+the model's `apply_one_file_patch` (`applyOne`) from the initial tree. -/
+namespace SaveEx
+
+def ax : Bytes := [97, 47, 120]     -- "a/x"
+def by_ : Bytes := [98, 47, 121]    -- "b/y"
+def p1 : Bytes := [112, 49]         -- "p1"
+
+/-- directory `a` with the file `a/x` ("old\n") -/
+def fs0 : FS := ⟨[([[97]], .dir), ([[97], [120]], .file [111, 108, 100, 10] 0o644 7)], 8⟩
+
+def cfg : Cfg := { backup := .always }
+
+/-- `a/x`: "old\n" becomes "new\n" -/
+def fpA : PFilePatch :=
+  { kind := .modify, old := some ax, new := some ax,
+    hunks := [{ rem := [[111, 108, 100, 10]], add := [[110, 101, 119, 10]], remLine := 0, addLine := 0,
+                pre := 0, suf := 0 }] }
+
+/-- `b/y` is created with the line "y\n" -/
+def fpB : PFilePatch :=
+  { kind := .create, new := some by_,
+    hunks := [{ rem := [], add := [[121, 10]], remLine := 0, addLine := 0, pre := 0, suf := 0 }] }
+
+/-- the state of a worker that has applied the one file patch `fp` of the patch `p1` -/
+def stOf (fp : PFilePatch) : St :=
+  match applyOne {} fs0 cfg 0 ⟨p1, 1, false⟩ fp with
+  | .ok (st, _) => st
+  | .error _ => {}
+
+def mems : Nat → Mem
+  | 0 => (stOf fpA).mem
+  | 1 => (stOf fpB).mem
+  | _ => []
+
+def applieds : Nat → List Status
+  | 0 => (stOf fpA).applied
+  | 1 => (stOf fpB).applied
+  | _ => []
+
+example : (mems 0).map (·.2.1) = [ax] ∧ (mems 1).map (·.2.1) = [by_] ∧
+    (applieds 0).length = 1 ∧ (applieds 1).length = 1 := by decide
+
+/-- the keys of the two workers -/
+example : saveKeys cfg 1 1 mems applieds 0 = [[[97], [120]], [[46, 112, 99], [112, 49], [97], [120]]] ∧
+    saveKeys cfg 1 1 mems applieds 1 = [[[98], [121]], [[46, 112, 99], [112, 49], [98], [121]]] := by decide
+
+theorem exists_ok_of_isOk {ε α : Type} {x : Except ε α} (h : x.isOk = true) : ∃ r, x = .ok r := by
+  cases x with
+  | ok a => exact ⟨a, rfl⟩
+  | error e => cases h
+
+/-- hypothesis (a): each worker's save succeeds alone -/
+theorem hsolo : ∀ i, i < 2 → ∃ r, workerSave cfg 1 1 ⟨fs0, [], none⟩ (mems i) (applieds i) = .ok r := by
+  intro i hi
+  apply exists_ok_of_isOk
+  match i, hi with
+  | 0, _ => decide
+  | 1, _ => decide
+
+/-- hypothesis (b): the keys are prefix-free -/
+theorem hdisj : KeysDisjoint (saveKeys cfg 1 1 mems applieds) 2 := by decide
+
+/-- whatever the schedule: when both workers are finished, the tree is that of the sequential run -/
+example (sched : List Nat)
+    (hd : ParSave.Done (saveProgs cfg 1 1 mems applieds 2)
+      (ParSave.run (saveProgs cfg 1 1 mems applieds 2) sched (ParSave.init fs0))) :
+    ∃ w, seqSave cfg 1 1 mems applieds 2 ⟨fs0, [], none⟩ = .ok w ∧
+      ParSave.FSEquiv (ParSave.run (saveProgs cfg 1 1 mems applieds 2) sched (ParSave.init fs0)).fs w.fs := by
+  obtain ⟨w, e, h, _⟩ := (C06_save_phase cfg 1 1 2 mems applieds fs0 hsolo hdisj sched).2 hd
+  exact ⟨w, e, h⟩
+
+/-- an interleaved schedule under which both workers finish (9 and 7 operations) -/
+def sched1 : List Nat := [0, 1, 1, 0, 0, 1, 0, 1, 1, 0, 1, 0, 0, 1, 0, 0]
+
+example : ParSave.Done (saveProgs cfg 1 1 mems applieds 2)
+    (ParSave.run (saveProgs cfg 1 1 mems applieds 2) sched1 (ParSave.init fs0)) := by
+  intro i
+  match i with
+  | 0 => decide
+  | 1 => decide
+  | _ + 2 => rfl
+
+/-- the interleaved run: same files as the sequential one below, other inode numbers -/
+example : (ParSave.run (saveProgs cfg 1 1 mems applieds 2) sched1 (ParSave.init fs0)).fs.nodes =
+    [([[97]], .dir), ([[98]], .dir), ([[98], [121]], .file [121, 10] 0o644 8),
+     ([[97], [120]], .file [110, 101, 119, 10] 0o644 9),
+     ([[46, 112, 99]], .dir), ([[46, 112, 99], [112, 49]], .dir),
+     ([[46, 112, 99], [112, 49], [98]], .dir), ([[46, 112, 99], [112, 49], [97]], .dir),
+     ([[46, 112, 99], [112, 49], [98], [121]], .file [] 0o644 10),
+     ([[46, 112, 99], [112, 49], [97], [120]], .file [111, 108, 100, 10] 0o644 11)] := by decide
+
+/-- the sequential composition of the model functions -/
+example : (match seqSave cfg 1 1 mems applieds 2 ⟨fs0, [], none⟩ with
+      | .ok w => some w.fs.nodes | .error _ => none) =
+    some [([[97]], .dir), ([[97], [120]], .file [110, 101, 119, 10] 0o644 8),
+     ([[46, 112, 99]], .dir), ([[46, 112, 99], [112, 49]], .dir), ([[46, 112, 99], [112, 49], [97]], .dir),
+     ([[46, 112, 99], [112, 49], [97], [120]], .file [111, 108, 100, 10] 0o644 9),
+     ([[98]], .dir), ([[98], [121]], .file [121, 10] 0o644 10),
+     ([[46, 112, 99], [112, 49], [98]], .dir),
+     ([[46, 112, 99], [112, 49], [98], [121]], .file [] 0o644 11)] := by decide
+
+/-- (b) is needed: had worker 1 the file `a` in its cache, worker 0's `a/x` would lie below it -/
+example : ¬ KeysApart [[[97]]] (saveKeys cfg 1 1 mems applieds 0) := by decide
+
+end SaveEx
+
 #print axioms C06_apply_phase
+#print axioms C06_error_index
+#print axioms C06_save_phase
 #print axioms C06_queues_sorted
 #print axioms C06_frame
 #print axioms C06_local
